@@ -280,6 +280,10 @@ type rlWorld struct {
 	viols []string  // "key\x00message"
 	log   func(format string, a ...any)
 	n     map[string]int64
+	// reuse: consecutive sends with nothing in between (one probe vector) take the snapshot after request i as the
+	// snapshot before request i+1
+	reuse bool
+	last  *snap
 }
 
 func mkRequest(c *reqCase) *http.Request {
@@ -310,7 +314,11 @@ func rowsWith(s *snap, body []byte) int {
 // send serves one request sequentially and judges it under model m.
 // where names the position in the history ("after-reload:old-credential").
 func (w *rlWorld) send(where string, c *reqCase, m authModel) int {
-	before, err := takeSnap(w.st)
+	before, err := w.last, error(nil)
+	if !w.reuse || before == nil {
+		before, err = takeSnap(w.st)
+	}
+	w.last = nil
 	if err != nil {
 		w.log("INFRA snapshot: %v", err)
 		return 0
@@ -322,6 +330,7 @@ func (w *rlWorld) send(where string, c *reqCase, m authModel) int {
 		w.log("INFRA snapshot: %v", err)
 		return 0
 	}
+	w.last = after
 	ref := m.accepts(c, time.Now())
 	w.n["evaluations"]++
 	w.n["reload_cases"]++
